@@ -166,8 +166,8 @@ def e_reports(runs, t):
 
 def run(ck):
     quick = ck.quick()
-    ck.mc("MC_Leakage", "MC_Leakage_noninterference.cfg", note="self-composition: select scan, branch-free recoding, ladder cswap, masked add-back, conditional negate", workers=4)
-    for c in ("leakyselect", "leakynaf", "leakyladder", "leakysub"):
+    ck.mc("MC_Leakage", "MC_Leakage_noninterference.cfg", note="self-composition: select scan, branch-free recoding, ladder cswap, masked add-back, conditional negate, sqrt_ratio_i, batch inversion", workers=4)
+    for c in ("leakyselect", "leakynaf", "leakyladder", "leakysub", "leakysqrt", "leakybatchinv"):
         ck.mc("MC_Leakage", "MC_Leakage_%s.cfg" % c, note="kept counterexample (leaky variant rejected)", workers=2, expect_violation=True)
     backends = ["s64", "s32", "v2"] if quick else ["s64", "s32", "f64", "f32", "v2"]
     bins = build_many([(b, True, "release", ()) for b in backends], jobs=3)
